@@ -238,7 +238,7 @@ def fanout_case(case):
     rng = random.Random(case["seed"])
     T, pattern, fmt, stmt, mode = case["T"], case["pattern"], case["fmt"], case["stmt"], case["mode"]
     style = case.get("style", "plain")
-    seq = history(rng, T, pattern)
+    seq = history(rng, T, pattern, case.get("nvisits_cap", 2600))
     recs = []
     for n, t in enumerate(seq):
         recs.append([("id", f"r{n+1}"), ("t", tname(t, style)), ("v", str(rng.randint(0, 999))), ("w", rng.choice(["pan", "eks", "wye"]))])
@@ -657,6 +657,24 @@ def run(chk):
             c["style"] = "punct"     # pprint cannot represent a value containing a space (C01 domain)
         c["rpb"] = rng.choice([1, 500])
         c["nofile"] = rng.choice([1024, 300]) if c["T"] >= 255 and c["mode"] != "pipe" else 1024
+        cases.append(c)
+    # "any number of targets": histories several times deeper than the 256-handle cache (and than any bookkeeping sized as a
+    # small multiple of it: 1024 + 256 = 1280 names), with early targets revisited after everything else has been opened
+    deep = []
+    for T in ([1300, 2100] if q else [1300, 1700, 2100, 4200]):
+        for stmt, fmt, mode in [("tee-dsl", "dkvp", "write"), ("print", "dkvp", "write"), ("split-g", "csv", "write"), ("emit", "json", "append"),
+                                ("tee-dsl", "jsonl", "append"), ("dump", "json", "write")][: (3 if q and T > 1300 else 6)]:
+            for pattern in (["revisit-after-gap"] if q else ["revisit-after-gap", "round-robin", "zipf"]):
+                deep.append({"T": T, "pattern": pattern, "stmt": stmt, "fmt": fmt, "mode": mode})
+    for i, g in enumerate(deep):
+        c = dict(g)
+        c["seed"] = f"{chk.seed}/deep/{i}"
+        c["tail"] = None
+        c["style"] = "plain"
+        c["pathstyle"] = rng.choice(["bare", "subdir"])
+        c["rpb"] = 500
+        c["nofile"] = 1024
+        c["nvisits_cap"] = 2 * T + 600
         cases.append(c)
     chk.pmap(fanout_case, cases, label="fan-out histories")
     # race detector on the heavy histories
